@@ -632,3 +632,17 @@ Definition chain_op (m : mode) (g : xregion) (r : droot) (l : list dstep) (f : d
   | Panic s => Panic s
   | OutOfFuel => OutOfFuel
   end.
+
+(* ================================================================== GntDevMapGrantRef::new xen.rs:732-745 (worker w7)
+   for (i, r) in refs.iter_mut().enumerate().take(count) { r.domid = domid; r.reference = base + i as u32; }
+   (u32 arithmetic: `i as u32` truncates, `+` panics on overflow in a debug build and wraps in a release build) *)
+Definition W32 : N := 4294967296.
+Fixpoint gnt_refs_new (m : mode) (domid base i : N) (count : nat) {struct count} : outcome (list (N * N)) :=
+  match count with
+  | O => Val []
+  | S k =>
+      let s := base + i mod W32 in
+      let* r := (if s <? W32 then Val s else match m with Debug => Panic 740 | Release => Val (s mod W32) end) in
+      let* rest := gnt_refs_new m domid base (i + 1) k in
+      Val ((domid, r) :: rest)
+  end.
